@@ -72,8 +72,10 @@ def run_shard(spec, ctx, acc):
                 st.sampled_from([0, 1]),
                 st.sampled_from([1, 1, 0]),
             )
+            from vp.props import c13
+
             core.hyp_search(acc, strat, check, seed=core.derive(ctx["seed"], PROP, t.label),
-                            max_examples=n, known=known, rounds=2)
+                            max_examples=n, known=known, rounds=2, history=c13.related_history)
             if t.is_cfgval():
                 # key/value messages: conforming lists of up to 100 items
                 cv = st.builds(lambda p, mode, bf: dict(_mk(t.clsid, p, mode, bf, "exact", "defined"), cfgval=True),
